@@ -108,7 +108,9 @@ def cmp_guard_nf(cfg, nid, normalizer):
 
 
 def assigned_value(fnode, name):
-    """The unique value expression assigned to local `name`, else None."""
+    """The value expression of the only plain assignment `name = value` in the function, else None.
+    NOTE: flow-insensitive -- other kinds of writes to the name (tuple targets, augmented assignments, loop
+    targets) are not considered; use `writes_to_name` / `value_at` where that matters."""
     vals = []
     for n in walk_no_nested(fnode):
         if isinstance(n, ast.Assign):
@@ -129,32 +131,59 @@ def resolve_local(fnode, e, depth=3):
     return e
 
 
+def walk_with_lambdas(node):
+    """walk_no_nested, but lambda bodies are entered: a lambda is not an indexed function of its own, what it
+    does belongs to the function that creates it (nested defs and classes are indexed separately)."""
+    todo = [node]
+    first = True
+    while todo:
+        n = todo.pop()
+        if not first and isinstance(n, (ast.FunctionDef, ast.AsyncFunctionDef, ast.ClassDef)):
+            yield n
+            continue
+        yield n
+        first = False
+        todo.extend(reversed(list(ast.iter_child_nodes(n))))
+
+
 def stores_to(root, attr_chain, nested=True):
     """All nodes that write `self.<field>`-like chain: assignments, augmented
-    assignments, subscript stores, del, and mutating method calls."""
-    MUT = {"pop", "append", "remove", "add", "update", "setdefault", "insert", "clear", "popitem", "extend", "discard", "popleft", "appendleft"}
+    assignments, subscript stores, del, and mutating method calls -- directly or through a local alias of
+    the field (`x = self.f`) or of one of its elements (`x = self.f[k]`, `x = self.f.get(k)`, either arm of a
+    conditional expression)."""
+    MUT = {"pop", "append", "remove", "add", "update", "setdefault", "insert", "clear", "popitem", "extend", "discard", "popleft", "appendleft", "__setitem__", "__delitem__"}
     out = []
-    # local aliases: `x = self.f[k]` / `x = self.f.get(k)` / `x = self.f` (single assignment): a mutation
-    # through x is a mutation of the field's (element) value
     aliases = set()
     counts = {}
-    for n in (ast.walk(root) if nested else walk_no_nested(root)):
+    walker = (lambda: ast.walk(root)) if nested else (lambda: walk_with_lambdas(root))
+    for n in walker():
         if isinstance(n, ast.Assign):
             for t in n.targets:
                 if isinstance(t, ast.Name):
                     counts[t.id] = counts.get(t.id, 0) + 1
-    for n in (ast.walk(root) if nested else walk_no_nested(root)):
+        elif isinstance(n, ast.NamedExpr) and isinstance(n.target, ast.Name):
+            counts[n.target.id] = counts.get(n.target.id, 0) + 1
+
+    def _aliases_field(v):
+        if isinstance(v, ast.IfExp):
+            return _aliases_field(v.body) or _aliases_field(v.orelse)
+        if isinstance(v, ast.BoolOp):
+            return any(_aliases_field(x) for x in v.values)
+        base = v
+        if isinstance(v, ast.Call) and isinstance(v.func, ast.Attribute) and v.func.attr in ("get", "setdefault"):
+            base = v.func.value
+        while isinstance(base, ast.Subscript):
+            base = base.value
+        return chain(base) == attr_chain and not isinstance(v, ast.Name)
+
+    for n in walker():
         if isinstance(n, ast.Assign) and len(n.targets) == 1 and isinstance(n.targets[0], ast.Name) and counts.get(n.targets[0].id) == 1:
-            v = n.value
-            base = v
-            if isinstance(v, ast.Call) and isinstance(v.func, ast.Attribute) and v.func.attr in ("get", "setdefault"):
-                base = v.func.value
-            while isinstance(base, ast.Subscript):
-                base = base.value
-            if chain(base) == attr_chain and not isinstance(v, ast.Name):
+            if _aliases_field(n.value):
                 aliases.add(n.targets[0].id)
-    it = ast.walk(root) if nested else walk_no_nested(root)
-    for n in it:
+        elif isinstance(n, ast.NamedExpr) and isinstance(n.target, ast.Name) and counts.get(n.target.id) == 1:
+            if _aliases_field(n.value):
+                aliases.add(n.target.id)
+    for n in walker():
         if aliases and isinstance(n, ast.Call) and isinstance(n.func, ast.Attribute) and n.func.attr in MUT and isinstance(n.func.value, ast.Name) and n.func.value.id in aliases:
             out.append((n.func.attr, n))
             continue
@@ -167,7 +196,7 @@ def stores_to(root, attr_chain, nested=True):
                     while isinstance(base, ast.Subscript):
                         base = base.value
                         kind = "setitem"
-                    if chain(base) == attr_chain:
+                    if chain(base) == attr_chain or (kind == "setitem" and isinstance(base, ast.Name) and base.id in aliases):
                         if isinstance(n, ast.AnnAssign) and n.value is None:
                             continue
                         out.append((kind, n))
@@ -178,7 +207,7 @@ def stores_to(root, attr_chain, nested=True):
                 while isinstance(base, ast.Subscript):
                     base = base.value
                     kind = "delitem"
-                if chain(base) == attr_chain:
+                if chain(base) == attr_chain or (kind == "delitem" and isinstance(base, ast.Name) and base.id in aliases):
                     out.append((kind, n))
         elif isinstance(n, ast.Call) and isinstance(n.func, ast.Attribute) and n.func.attr in MUT:
             base = n.func.value
@@ -188,7 +217,7 @@ def stores_to(root, attr_chain, nested=True):
                 out.append((n.func.attr, n))
         elif isinstance(n, ast.Attribute) and n.attr in MUT and not isinstance(getattr(n, "ctx", None), ast.Store):
             # method value taken without a call: functools.partial(self.f.pop, k)
-            if chain(n.value) == attr_chain:
+            if chain(n.value) == attr_chain or (isinstance(n.value, ast.Name) and n.value.id in aliases):
                 out.append(("ref:" + n.attr, n))
     # drop 'ref:' duplicates of actual calls
     called = {id(n.func) for k, n in out if isinstance(n, ast.Call)}
@@ -216,7 +245,7 @@ def stores_to_any(root, field):
     """Like stores_to but for any receiver: <expr>.field"""
     out = []
     recv = set()
-    for n in walk_no_nested(root):
+    for n in walk_with_lambdas(root):
         if isinstance(n, ast.Attribute) and n.attr == field:
             c = chain(n)
             if c:
